@@ -16,7 +16,7 @@ COQ_FILES = ['Model/Distance.v', 'Proofs/DistanceBase.v', 'Proofs/DistanceFloyd.
 THEOREMS = ['C03_floyd_correct', 'C03_floyd_diag_zero', 'C03_floyd_reach_iff_finite', 'C03_floyd_hops_min_path',
             'C03_floyd_transforms', 'C03_distance_bin_correct', 'C03_distance_bin_diag_zero', 'C03_distance_bin_inf_iff',
             'C03_agree_floyd_bin', 'C03_agree_any', 'C03_distance_wei_partial', 'C03_distance_wei_diag_zero',
-            'C03_breadthdist_partial', 'C03_breadthdist_reach_flag', 'C03_breadthdist_selfloop_refuted',
+            'C03_breadthdist_partial', 'C03_breadthdist_reach_flag',
             'C03_reachdist_partial', 'C03_reachdist_flag_partial', 'C03_offdiag_pairs', 'C03_charpath_mean', 'C03_charpath_mean_inverse',
             'C03_efficiency_bin_mean_inverse', 'C03_efficiency_wei_mean_inverse', 'C03_rout_efficiency_mean_inverse']
 RULE = ('binary and length matrices, directed and undirected, n=1..8: exhaustive (all digraphs n<=3 quick / n<=4 thorough, '
@@ -557,7 +557,7 @@ def exact_h_zero(K):
 
 
 def do_selfloop(ctx, bct, A, B_):
-    """separate stream: graphs WITH self-connections (outside the main domain; recorded findings are keyed narrowly)"""
+    """separate stream: graphs WITH self-connections (breadth was repaired for them in repo commit 4574619; kept so that a regression is reported)"""
     n = len(A)
     An = npm(A)
     case = {'kind': 'binary-with-selfloops', 'A': A}
